@@ -36,7 +36,7 @@ import (
 )
 
 type c16Op struct {
-	Kind     string `json:"kind"` // raw frame ping settings ack open prioopen openreset rst wu cont data prio goaway
+	Kind     string `json:"kind"` // raw frame ping settings ack open prioopen openreset rst wu cont data prio pupd goaway
 	N        int    `json:"n,omitempty"`
 	K        int    `json:"k,omitempty"`
 	V        uint32 `json:"v,omitempty"`
@@ -48,6 +48,7 @@ type c16Op struct {
 	Payload  []byte `json:"payload,omitempty"`
 	LenDelta int    `json:"len_delta,omitempty"`
 	Raw      []byte `json:"raw,omitempty"`
+	Prio     string `json:"prio,omitempty"` // open: priority request header field; pupd: priority field value
 	Split    int    `json:"split,omitempty"` // permille at which the write is split in two (0 = one write)
 	Read     int    `json:"read,omitempty"`  // after the write: 0 nothing, 1 read everything, 2 read one frame
 }
@@ -109,6 +110,11 @@ func c16U32(v uint32) []byte { return binary.BigEndian.AppendUint32(nil, v) }
 
 // ---- generator ------------------------------------------------------------------
 
+// c16Prios are RFC 9218 priority field values (PRIORITY_UPDATE frames, priority request
+// header): in range, out of range on both sides of every integer width, malformed.
+var c16Prios = []string{"u=1", "u=7, i", "", "u=9", "\xff", "u=0", "u=-1", "u=-8", "u=-249", "u=-256", "u=-257", "u=255", "u=256",
+	"u=8", "u=-0", "u=999999999999999", "u=-999999999999999", "u=9999999999999999", "u=3.0", "u=?1", "i=?0", "i=1", "u=2;a=1, i;b", "u", "i, u=-1", "u=-1, u=3"}
+
 var c16StreamIDs = []uint32{0, 1, 1, 3, 3, 5, 7, 9, 2, 4, 1001, 1<<31 - 1, 1<<31 | 1, 1 << 31}
 
 func c16GenPayload(t *rapid.T, typ uint8) []byte {
@@ -117,7 +123,9 @@ func c16GenPayload(t *rapid.T, typ uint8) []byte {
 	case 0: // DATA
 		base = vp.Bytes(0, 20).Draw(t, "data")
 	case 1: // HEADERS
-		switch rapid.IntRange(0, 3).Draw(t, "hk") {
+		switch rapid.IntRange(0, 4).Draw(t, "hk") {
+		case 4: // request with a priority header field
+			base = c16Req(rapid.IntRange(0, c16Handlers-1).Draw(t, "path"), "priority", rapid.SampledFrom(c16Prios).Draw(t, "prio"))
 		case 0:
 			base = []byte{0x82, 0x87, 0x84} // GET https /
 		case 1:
@@ -150,7 +158,7 @@ func c16GenPayload(t *rapid.T, typ uint8) []byte {
 	case 9: // CONTINUATION
 		base = vp.Bytes(0, 10).Draw(t, "frag")
 	case 16: // PRIORITY_UPDATE
-		base = append(c16U32(rapid.SampledFrom(c16StreamIDs).Draw(t, "pus")), rapid.SampledFrom([]string{"u=1", "u=7, i", "", "u=9", "\xff"}).Draw(t, "pu")...)
+		base = append(c16U32(rapid.SampledFrom(c16StreamIDs).Draw(t, "pus")), rapid.SampledFrom(c16Prios).Draw(t, "pu")...)
 	default:
 		base = vp.Bytes(0, 12).Draw(t, "other")
 	}
@@ -172,7 +180,7 @@ func c16GenPayload(t *rapid.T, typ uint8) []byte {
 func c16Gen(t *rapid.T) c16Case {
 	var c c16Case
 	c.Prefix = rapid.SampledFrom([]int{2, 2, 2, 2, 2, 2, 2, 2, 3, 3, 3, 3, 3, 0, 1, 4, 5}).Draw(t, "prefix")
-	c.Sched = rapid.SampledFrom([]int{0, 1, 2, 3, 3}).Draw(t, "sched") // the RFC 7540 scheduler also consumes PRIORITY frames
+	c.Sched = rapid.SampledFrom([]int{0, 0, 0, 1, 2, 3, 3}).Draw(t, "sched") // RFC 9218 consumes priority fields and PRIORITY_UPDATE, RFC 7540 PRIORITY frames
 	c.MaxStreams = rapid.SampledFrom([]uint32{1, 2, 5}).Draw(t, "max")
 	c.MaxFrame = rapid.SampledFrom([]uint32{0, 16384}).Draw(t, "maxframe")
 	c.ReadBuf = rapid.SampledFrom([]int{0, 0, 16, 256, 4096}).Draw(t, "readbuf")
@@ -196,7 +204,7 @@ func c16Gen(t *rapid.T) c16Case {
 	switch mode {
 	case 1:
 		kinds = []string{"frame", "frame", "raw", "ping", "settings", "ack", "open", "open", "open", "open", "open", "open", "openreset",
-			"rst", "rst", "rst", "wu", "wu", "wu", "cont", "data", "data", "prio", "prio", "prioopen", "prioopen", "goaway"}
+			"rst", "rst", "rst", "wu", "wu", "wu", "cont", "data", "data", "prio", "prio", "prioopen", "prioopen", "pupd", "pupd", "goaway"}
 	case 2:
 		kinds = []string{"ping", "ping", "settings", "settings", "ack", "open", "open", "openreset", "openreset", "rst", "rst", "wu", "wu", "cont", "cont", "data", "prio", "prioopen", "frame"}
 	}
@@ -236,6 +244,13 @@ func c16Gen(t *rapid.T) c16Case {
 			o.N = count.Draw(t, "n")
 			o.Path = path.Draw(t, "path")
 			o.End = rapid.Bool().Draw(t, "end")
+			if rapid.IntRange(0, 1).Draw(t, "hasPrio") == 0 {
+				o.Prio = rapid.SampledFrom(c16Prios).Draw(t, "prio")
+			}
+		case "pupd": // PRIORITY_UPDATE (RFC 9218) for open streams or for the streams opened next
+			o.N = rapid.IntRange(1, 3).Draw(t, "n")
+			o.K = rapid.OneOf(rapid.IntRange(0, 60), rapid.Just(-1)).Draw(t, "k")
+			o.Prio = rapid.SampledFrom(c16Prios).Draw(t, "prio")
 		case "prioopen":
 			o.N = rapid.IntRange(1, 3).Draw(t, "n")
 			o.Path = path.Draw(t, "path")
@@ -555,8 +570,19 @@ func c16Run(c c16Case, r *vp.Rec) (err error) {
 				fl |= c16EndStream
 			}
 			blk := c16Req(o.Path)
+			if o.Prio != "" {
+				blk = c16Req(o.Path, "priority", o.Prio)
+			}
 			for i := 0; i < n; i++ {
 				b = c16Frame(b, c16TypeHeaders, fl, newID(), blk, 0)
+			}
+		case "pupd":
+			for i := 0; i < n; i++ {
+				id := uint32(2*((o.K+i)%64) + 1)
+				if o.K < 0 {
+					id = nextID + uint32(2*i)
+				}
+				b = c16Frame(b, 16, 0, 0, append(c16U32(id), o.Prio...), 0)
 			}
 		case "prioopen": // PRIORITY for a still idle stream, then its HEADERS
 			var fl uint8 = c16EndHeaders
